@@ -2,6 +2,7 @@
 This is a module to be used as a reference for building other modules
 """
 import numpy as np
+import numba
 from numba.typed import List
 import scipy.linalg
 import scipy.stats
@@ -976,8 +977,8 @@ def preprocess_multi_token_sequences(
 
     # Get vocabulary and word frequencies
 
-    seq0 = token_sequences[0]
-    if not type(seq0[0]) in (list, tuple, np.ndarray):
+    seq0 = next((seq for seq in token_sequences if len(seq) > 0), None)
+    if seq0 is not None and not type(seq0[0]) in (list, tuple, np.ndarray):
         token_sequences = [token_sequences]
 
     (
@@ -1024,7 +1025,7 @@ def preprocess_multi_token_sequences(
     if masking is None:
         full_sequence = List()
         for set_sequence in token_sequences:
-            result_sequences = List()
+            result_sequences = List.empty_list(numba.int32[::1])
             for sequence in set_sequence:
                 result_sequences.append(
                     np.array(
@@ -1044,7 +1045,7 @@ def preprocess_multi_token_sequences(
 
         full_sequence = List()
         for set_sequence in token_sequences:
-            result_sequences = List()
+            result_sequences = List.empty_list(numba.int32[::1])
             for sequence in set_sequence:
                 result_sequences.append(
                     np.array(
